@@ -132,8 +132,12 @@ impl GenerationPass for AvailableValuePass {
         // the values with the correct previous nodes are calculated.
         #[allow(clippy::mutable_key_type)]
         let mut visited = HashSet::new();
+        #[cfg(rva_verif)]
+        crate::verif_hooks::begin("available");
         while changed {
             changed = false;
+            #[cfg(rva_verif)]
+            crate::verif_hooks::sweep("available");
             for node in cfg.iter() {
                 // A node that has predecessors, none of which has been visited
                 // yet, has nothing to start from. Treating it as "no values
